@@ -46,8 +46,8 @@ CHECKS = {
                 note='narrow partial claim (DESIGN §8.6): the event variants, the `type` style (parse_with_type / to_string_with_type), MatrixToUri::parse / MatrixUri::parse as wholes (query splitting, url::Url), via / action arguments are NOT decided - the harnesses for them exist (VERIF_C11_ALL=1) but hit the solver cap or did not finish; the three seeded changes for C11 fall outside this scope and are not detected',
                 ref='DESIGN.md §4 C11, §8.6'),
     'C12': dict(engine='mirsym', technique=MIRSYM,
-                text='compositional: (D) Ruleset::get_match executed from MIR on a symbolic ruleset with rules of all five kinds (symbolic enabled flags; condition and matcher verdicts arbitrary) - z3 decides that the first enabled rule whose conditions hold is returned, in the order override, content, room, sender, underride, nothing for own events, and which value/mode each kind hands to the matcher; (P) PushCondition::applies for event_match, room_member_count, sender_notification_permission, event_property_is, event_property_contains on a symbolic flattened event and room context against the specification; (W) matches_word for literal patterns on all printable-ASCII values <= 6 bytes / patterns <= 2 bytes against the word-boundary definition',
-                note='partial claim: the glob engine (wildmatch) and the regex generated for wildcard word patterns are library code (abstracted to arbitrary verdicts), FlattenedJson::from_raw (serde_json) is below the seam, non-ASCII text is outside; BTreeMap/IndexSet are library models',
+                text='compositional: (D) Ruleset::get_match executed from MIR on a symbolic ruleset with rules of all five kinds (symbolic enabled flags; condition and matcher verdicts arbitrary) - z3 decides that the first enabled rule whose conditions hold is returned, in the order override, content, room, sender, underride, nothing for own events, and which value/mode each kind hands to the matcher; (P) PushCondition::applies for event_match, room_member_count, sender_notification_permission, event_property_is, event_property_contains on a symbolic flattened event and room context against the specification; (W) matches_word for literal patterns on all printable-ASCII values <= 6 bytes / patterns <= 2 bytes against the word-boundary definition; (R) the regex built for wildcard word patterns, every pattern shape <= 4 positions; (F) FlattenedJson::flatten_value on nested objects with symbolic keys (dot-joined, backslash-escaped paths)',
+                note='partial claim: the glob engine (wildmatch) and the regex generated for wildcard word patterns are library code (abstracted to arbitrary verdicts), the serde_json parsing step of FlattenedJson::from_raw is below the seam, non-ASCII text is outside; BTreeMap/IndexSet are library models',
                 ref='DESIGN.md §4 C12'),
     'C09': dict(engine='mirsym', technique=MIRSYM,
                 text='(a) auth_types_for_event executed from MIR on the symbolic events of the C08 world (every kind, membership, absent/ok/malformed content fields, third-party-invite token absent/string/non-string) per room version: z3 decides selected pairs == the specification\'s selection, no duplicates, errors only where the selection is undefined; (b) on every explored path of auth_check every (type, state_key) handed to fetch_state is among the pairs selected for that event, which (state = uninterpreted function of the key, auth_check deterministic) is non-interference of all other state entries',
